@@ -53,6 +53,11 @@ add("C13", "runtime monitor: brute-force predicate evaluator and side-by-side Di
     "Dotted paths address dictionaries only; order attributes are chosen among attributes present in every selected object; tuple/list differences from JSON storage are normalised.",
     "DESIGN.md 3/C13")
 
+add("C14", "runtime monitor: every attendance pass and callback invocation of a real LDM recorded and judged by a reference subscription model",
+    "Exploration: interleavings of subscribe (valid and with exactly one invalid field: unknown consumer, type, priority, interval, multiplicity), unsubscribe (valid and unknown id), register/deregister/re-register, add, delete, virtual clock advance and explicit attendance with four consumer ids and overlapping subscriptions (types, one/two-statement filters, multiplicity none/0..5, interval none/1 ms..5 s, 0..2 order keys); attendance passes are observed through a call/return hook (reactive passes inside add and explicit ones), callbacks record arguments and virtual time; per pass and subscription the model says must / must-not / either and the notified set and order are compared with the brute-force evaluator of C13.",
+    "Cadence is judged at whole seconds (less than 1 s from the boundary is 'either'); the first notification may come at once or one interval after subscribing; object validity is far longer than the histories.",
+    "DESIGN.md 3/C14")
+
 NOT_YET = "check not built yet (work in progress; runtime monitor planned in DESIGN.md section 3)"
 
 def main():
